@@ -692,7 +692,7 @@ func (rn *run) eval(scope *slip.Scope, prefix, src string) (slip.Object, *sl.Err
 
 func exec(x *fw.Ctx, c Case) {
 	n := len(c.Classes)
-	if n == 0 || 6 < n {
+	if n == 0 || 8 < n {
 		x.Trivial()
 		return
 	}
@@ -1019,7 +1019,7 @@ func init() {
 			"and after each order every class is observed: class-precedence (also after every intermediate defclass), a fresh instance for every subset of its initargs " +
 			"(slot-exists-p/slot-boundp/slot-value of every slot name; default initargs applied), (setf slot-value), slot-makunbound, reader after slot-makunbound, wrong-typed initarg, class-slot sharing/separation/persistence, " +
 			"change-class to two other classes, typep/class-of/subtypep against every class, one- and two-argument dispatch, every applicable reader/writer/accessor, non-applicable accessors, and instances made before a redefinition. " +
-			"The first 22 cases are a fixed seed-independent list of shapes (chains, diamond, redefinition of root/middle/apex, every construct with a listed finding). " +
+			"The first 122 cases are fixed and seed-independent: 22 shapes (chains, diamond, redefinition of root/middle/apex, every construct that had a finding) and 5 shapes of a redefined class with 3..6 direct and indirect subclasses x 20 repetitions x 8 drawn orders. " +
 			"distinct = distinct case JSON; every case is non-trivial (>= 2 classes, >= 2 orders, >= 100 evaluations). " +
 			"Kept to a minority of cases (10%): a slot with two initargs, because supplying both has the one open finding (Duplicate initarg error instead of leftmost wins).",
 		N:        nCases,
